@@ -18,6 +18,7 @@ def dispatch (toks : List String) : String :=
   | "C19" :: rest => Poor.Drv.Route.handle rest
   | "RE" :: rest => Poor.Drv.Route.handleRe rest
   | "C18" :: rest => Poor.Drv.HeaderValue.handle rest
+  | "C13" :: rest => Poor.Drv.Session.handle rest
   | _ => "bad-op"
 
 partial def loop (h : IO.FS.Stream) (out : IO.FS.Stream) : IO Unit := do
